@@ -28,7 +28,11 @@ class Daemon:
             self.env.update(env_extra)
         cmd = (wrapper or []) + [os.path.join(tdir, "bin", "nano_vmd"), "--foreground", "--no-timeout"] + (["--verbose"] if verbose else [])
         self.errf = open(self.errlog, "wb")
-        self.proc = subprocess.Popen(cmd, env=self.env, stdin=subprocess.DEVNULL, stdout=subprocess.DEVNULL, stderr=self.errf, cwd=tdir)
+        # own process group: a tracer used as wrapper (strace) detaches when it is terminated and would leave the daemon behind
+        self.proc = subprocess.Popen(cmd, env=self.env, stdin=subprocess.DEVNULL, stdout=subprocess.DEVNULL, stderr=self.errf, cwd=tdir,
+                                     start_new_session=True)
+        import atexit
+        atexit.register(self._kill_group)
         for _ in range(200):
             if os.path.exists(self.sock):
                 break
@@ -53,15 +57,28 @@ class Daemon:
         except OSError:
             return ""
 
+    def _kill_group(self):
+        try:
+            os.killpg(self.proc.pid, signal.SIGKILL)
+        except (ProcessLookupError, PermissionError, OSError):
+            pass
+
     def stop(self):
         if self.proc.poll() is None:
             try:
-                self.proc.send_signal(signal.SIGTERM)
+                os.killpg(self.proc.pid, signal.SIGTERM)
                 self.proc.wait(timeout=5)
             except Exception:
-                self.proc.kill()
-                self.proc.wait()
-        self.errf.close()
+                pass
+        self._kill_group()
+        try:
+            self.proc.wait(timeout=5)
+        except Exception:
+            pass
+        try:
+            self.errf.close()
+        except Exception:
+            pass
 
     # ---- clients ---------------------------------------------------------------------------
     def connect(self, timeout=20.0):
